@@ -207,6 +207,7 @@ def main():
         cex = []  # (id, rule, before, after, valuation)
         samples = []
         solver_s = 0.0
+        cross = {"checked": 0, "disagree": 0, "inconclusive": 0}
         for pid, rule, before, after in pairs:
             pid = int(pid)
             if pid not in keep:
@@ -256,6 +257,25 @@ def main():
                     raw = m.eval(env.i_val, model_completion=True).as_long()
                     iv = str(raw - (1 << 32) if raw >= (1 << 31) else raw)
                 cex.append((pid, rule, before, after, "%s %s %s %s" % (b3(0), b3(1), b3(2), iv)))
+            # thorough tier: cross-check every 25th query with cvc5 (second solver, same SMT-LIB text)
+            if tier == "thorough" and decided % 25 == 0:
+                solver.pop()  # drop the NULL-free preference, keep the inequivalence assertion
+                smt2 = "(set-logic ALL)\n" + solver.to_smt2()
+                solver.push()
+                try:
+                    cp = subprocess.run(["cvc5", "--lang", "smt2"], input=smt2, stdout=subprocess.PIPE, stderr=subprocess.STDOUT,
+                                        text=True, timeout=60)
+                    ans = cp.stdout.strip().splitlines()[0] if cp.stdout.strip() else "?"
+                except (OSError, subprocess.TimeoutExpired):
+                    ans = "?"
+                if "(error" in (cp.stdout if ans != "?" else ""):
+                    ans = "?"
+                z3_ans = "unsat" if (res == z3.unsat) else "sat"
+                cross["checked"] += 1
+                if ans in ("sat", "unsat") and ans != z3_ans:
+                    cross["disagree"] += 1
+                elif ans not in ("sat", "unsat"):
+                    cross["inconclusive"] += 1
             solver.pop()
             solver.pop()
             if len(samples) < 6 and before != after:
@@ -306,6 +326,9 @@ def main():
         if unreproduced:
             # a Kleene disagreement that the real evaluator does not show (the engine's AND/OR propagate NULL: F8)
             print("note: %d SMT disagreements did not reproduce with the real evaluator (NULL-propagating AND/OR, F8); not reported" % len(unreproduced))
+        if cross["disagree"]:
+            print("INCONCLUSIVE property=%s reason=z3 and cvc5 disagree on %d queries (encoding or solver problem)" % (PROP, cross["disagree"]))
+            rcode = rcode or 2
         if decided == 0:
             print("INCONCLUSIVE property=%s reason=nothing decided" % PROP)
             rcode = rcode or 2
@@ -322,7 +345,7 @@ def main():
                 "pairs_changed_by_rewrite": changed, "equivalent_for_all_rows": equal, "inequivalent": differ,
                 "unsupported_pairs": unsupported, "rewrite_errors": rewrite_errors,
                 "confirmed_native": len(confirmed), "known_findings_hit": ["F9"] if known else [], "known_pairs": len(known),
-                "not_reproduced": len(unreproduced), "solver": "z3 " + z3.get_version_string(), "solver_s": round(solver_s, 3),
+                "not_reproduced": len(unreproduced), "cvc5_cross_check": cross, "solver": "z3 " + z3.get_version_string(), "solver_s": round(solver_s, 3),
                 "bounds": "boolean expressions over 3 nullable BOOLEAN columns and one nullable INT32 column compared with a literal; "
                           "AND/OR/NOT/IS NULL, depth <= 3, fan-out <= 3; quick = every 4th expression (offset by VERIF_SEED), thorough = all",
                 "functions_encoded": ["DistributiveOrRewrite::rewrite", "UnnestConjunctionRewrite::rewrite", "ExpressionRewriter::apply_rewrites",
@@ -330,7 +353,7 @@ def main():
                 "exhaustive": False,
             },
             "assumptions": ["SMT semantics of AND/OR/NOT/IS/comparison are SQL's (Kleene); the data quantifier is decided by z3, the program "
-                            "quantifier is an enumerated, bounded family", "z3 is trusted; cvc5 cross-check not run in this tier"],
+                            "quantifier is an enumerated, bounded family", "z3 decides; in the thorough tier every 25th query is re-decided by cvc5 on the same SMT-LIB text (coverage.cvc5_cross_check)"],
             "wall_s": round(wall, 2), "violations": len(confirmed),
         }
         if "--no-evidence" not in args:
